@@ -2,10 +2,10 @@ import RallyModel.Ctx
 /-! Helper lemmas for C18 (core tactics only).
 
 Part 1: lists / min / max / `upd`.
-Part 2: `Exact` — invariant behind `sub_request_exact` (any trace, current and patched code).
+Part 2: `Exact` — invariant behind `sub_request_exact` (any trace; `fx = true` current code, `fx = false` pre-fix code).
 Part 3: `Iso` — simulation behind `client_isolation`.
-Part 4: `Seq` — invariant behind `outer_span_partial` (no task creation inside a request).
-Part 5: `PInv` — invariant behind `outer_span_patched` (proposed patch, any structured concurrency).
+Part 4: `Seq` — invariant behind the historical `outer_span_partial_pinned` (pre-fix code, no task creation inside a request).
+Part 5: `PInv` — invariant behind `outer_span` (current code = `fx = true`, any structured concurrency).
 -/
 namespace Ctx
 
@@ -1104,7 +1104,7 @@ theorem sim_runFrom {fx : Bool} {P : Nat → Bool} {evs : List CEv} {s s' s1 : S
     · cases h
 
 
-/-! ## Part 4: sequential nesting (no task creation inside a request) -/
+/-! ## Part 4: sequential nesting (no task creation inside a request) — historical, pre-fix code `fx = false` -/
 
 /-- effect of one more wire event on the specification values -/
 def bumpStart (t : Rat) : PyVal → PyVal
@@ -1770,7 +1770,7 @@ theorem seq_settled {s : St} (hi : SeqInv s) {c : Nat} {r : Rec} (hc : s.ctxs c 
         simp [hry, hyc, hanc, hcrest, hycl] at this
 
 
-/-! ## Part 5: the proposed patch (`fx = true`) — any structured concurrency -/
+/-! ## Part 5: the current code (`fx = true`, fix 65587fe: keep min / max, ignore `None`) — any structured concurrency -/
 
 def getVal (b : Bool) (r : Rec) : PyVal := if b then r.getStart else r.getStop
 /-- `m` is at least as good as `t`: earlier for starts, later for ends -/
@@ -1791,7 +1791,7 @@ theorem setVal_none (b : Bool) (r : Rec) : setVal true b r none = r := by
 theorem getVal_setVal_cross (b : Bool) (r : Rec) (v : PyVal) : getVal b (setVal true (!b) r v) = getVal b r := by
   cases b <;> simp [getVal, setVal, Rec.getStart, Rec.getStop]
 
-/-- writing `t` with the patched update functions: the result is the better of the old value and `t` -/
+/-- writing `t` with the current update functions: the result is the better of the old value and `t` -/
 theorem getVal_setVal_same (b : Bool) (r : Rec) (t : Rat) :
     ∃ m', getVal b (setVal true b r (some t)) = some m' ∧ better b m' t ∧
       (m' = t ∨ getVal b r = some m') ∧ (∀ m, getVal b r = some m → better b m' m) := by
@@ -1840,7 +1840,7 @@ theorem getVal_setVal_same (b : Bool) (r : Rec) (t : Rat) :
 @[simp] theorem setVal_opener (fx b : Bool) (r : Rec) (v : PyVal) : (setVal fx b r v).opener = r.opener := by
   cases b <;> simp [setVal]
 
-/-- one optional value written with the patched function: every old value is matched or improved, and the
+/-- one optional value written with the current update function: every old value is matched or improved, and the
     new value is the old one or the written one -/
 theorem setVal_opt (b b' : Bool) (r : Rec) (v : PyVal) :
     (∀ m, getVal b' r = some m → ∃ m', getVal b' (setVal true b r v) = some m' ∧ better b' m' m) ∧
@@ -1944,7 +1944,7 @@ theorem WF.head_ne_next {s : St} (hw : WF s) {c p : Nat} {rest' : List Nat} {rc 
 def Acc (b : Bool) (s : St) (x : Nat) (t : Rat) : Prop :=
   ∃ r m, s.ctxs x = some r ∧ getVal b r = some m ∧ better b m t
 
-/-- dicts only ever improve under the patched code -/
+/-- dicts only ever improve under the current code -/
 def Improves (s s' : St) : Prop :=
   ∀ x r, s.ctxs x = some r → ∃ r', s'.ctxs x = some r' ∧
     ∀ b m, getVal b r = some m → ∃ m', getVal b r' = some m' ∧ better b m' m
@@ -2340,7 +2340,7 @@ theorem pinv_covered {s : St} (hi : PInv s) {c : Nat} {r : Rec} (hc : s.ctxs c =
   rw [hc] at hr'; cases hr'
   exact ⟨m, hm', hb'⟩
 
-/-- under the patched code a settled context carries the specification, whatever the concurrency -/
+/-- under the current code a settled context carries the specification, whatever the concurrency -/
 theorem pinv_settled {s : St} (hi : PInv s) {c : Nat} {r : Rec} (hc : s.ctxs c = some r)
     (hset : settled s c = true) : r.getStart = specStart s c ∧ r.getStop = specStop s c := by
   constructor
